@@ -415,7 +415,7 @@ const sacPdnor = 25.4
 const sacNunit = 5
 const sacVerySmall = 0.0
 
-type sacEvents struct{ ratioNeg, adimcOver, fracpOver int }
+type sacEvents struct{ ratioNeg, adimcOver, fracpOver, preGuard int }
 
 func sacSumSlice(s []float64) (sum float64) {
 	sum = 0.0
@@ -478,6 +478,12 @@ def gen_sactrace():
         ind = m.group(1)
         body = body.replace(m.group(0), m.group(0) + ind + 'if hpl*(ratlp+ratlp)/(ratlp+ratls) > 1 && ev.fracpOver < 0 {\n' +
                             ind + '\tev.fracpOver = timestep\n' + ind + '}\n', 1)
+        old = '\t\te3 := 0.0\n\t\te5 := 0.0\n'
+        if old not in body:
+            raise ValueError('e3/e5')
+        # the per-step guard pre_guard of KernelProofs/SacramentoLand.v (hypothesis of the guarded theorems)
+        body = body.replace(old, old + '\t\tif (e1+uprTensionWater > additionalImperviousStore || evapt > uztwm+lztwm) && ev.preGuard < 0 {\n'
+                                       '\t\t\tev.preGuard = timestep\n\t\t}\n', 1)
         for a, b in ((r'\bpdn20\b', 'sacPdn20'), (r'\bpdnor\b', 'sacPdnor'), (r'\bnunit\b', 'sacNunit'), (r'\bVERY_SMALL\b', 'sacVerySmall')):
             body = re.sub(a, b, body)
         body = body.replace('makeUnitHydrograph(', 'sacMakeUnitHydrograph(').replace('sumSlice(', 'sacSumSlice(')
@@ -500,11 +506,18 @@ def gen_sactrace():
     os.replace(tmp, SACTRACE_GO)
 
 
+def sactrace_line(ps, st0, rain, pet):
+    return kcase('Sacramento', ps, st0, [rain, pet]).replace('K Sacramento', 'SACTRACE', 1)
+
+
+def parse_sactrace(res):
+    out = res.split()
+    if len(out) < 7 or out[0] != 'OK' or out[1] != 'E':
+        return None
+    ev = {'ratioNeg': int(out[2]), 'adimcOver': int(out[3]), 'fracpOver': int(out[4]), 'preGuard': int(out[5])}
+    return ev, parse_kresult('OK ' + ' '.join(out[6:]))
+
+
 def sactrace(ps, st0, rain, pet):
     """-> (events dict, parse_kresult triple) | None"""
-    line = kcase('Sacramento', ps, st0, [rain, pet]).replace('K Sacramento', 'SACTRACE', 1)
-    out = run_impl([line])[0].split()
-    if len(out) < 6 or out[0] != 'OK' or out[1] != 'E':
-        return None
-    ev = {'ratioNeg': int(out[2]), 'adimcOver': int(out[3]), 'fracpOver': int(out[4])}
-    return ev, parse_kresult('OK ' + ' '.join(out[5:]))
+    return parse_sactrace(run_impl([sactrace_line(ps, st0, rain, pet)])[0])
